@@ -833,9 +833,9 @@ fn corpus() -> Vec<&'static str> {
         // truncated tokens: unchecked slices (known finding, C06)
         "raw - xls 010024 S=5331 N= X=0",
         "raw - xlsb 2400 S=5331 N= X=0",
-        // D39 FTAB_ARGC listed MMULT (165) with 1 argument: =MMULT(A1:B2,C1:D2) written as PtgFunc could not be decoded
+        // new-C14-a FTAB_ARGC listed MMULT (165) with 1 argument: =MMULT(A1:B2,C1:D2) written as PtgFunc could not be decoded
         "enc S=5331 N= X=0 | FN 1 165 2 A 0 0 0 0 0 1 1 0 0 A 0 0 2 0 0 1 3 0 0",
-        // D40 xlsb PtgStr sniffed a byte-order mark in a string literal (U+FEFF dropped, U+FFFE / U+BBEF U+xxBF re-decoded)
+        // new-C14-b xlsb PtgStr sniffed a byte-order mark in a string literal (U+FEFF dropped, U+FFFE / U+BBEF U+xxBF re-decoded)
         "enc S=5331 N= X=0 | S 1 65279,65",
         "enc S=5331 N= X=0 | S 1 65534,65",
         "enc S=5331 N= X=0 | S 1 48111,191,65",
